@@ -160,6 +160,17 @@ fn main() {
                 }).collect();
                 format!("n={} toks={}", toks.len(), items.join("|"))
             }
+            // lexing, parsing, header extraction only (no XML dump): tells a crash of the parser from a crash of the printer
+            "deltaparse" => {
+                let tokens = penne::delta::lexer::lex(&bytes, "replay.pn");
+                let nlex = tokens.errors().map(|e| e.errors.len()).unwrap_or(0);
+                if nlex > 0 { return format!("lex_errors={} parse_errors=-", nlex); }
+                let tree = penne::delta::parser::parse(&tokens);
+                let npar = tree.errors(&tokens).map(|e| e.errors.len()).unwrap_or(0);
+                if npar > 0 { return format!("lex_errors=0 parse_errors={} nodes={}", npar, tree.num_parse_nodes()); }
+                let hdr = tree.build_header();
+                format!("lex_errors=0 parse_errors=0 nodes={} header_nodes={} header_decls={}", tree.num_parse_nodes(), hdr.num_parse_nodes(), hdr.num_declarations())
+            }
             // C15: delta front end totality
             "delta" => {
                 let tokens = penne::delta::lexer::lex(&bytes, "replay.pn");
